@@ -522,6 +522,8 @@ def main(harness, tier, seed, jobs=None):
     opts.setdefault("witness_every", 1)
     findings = load_findings(prop)
     fopen = [e["id"] for e in findings if e.get("status") == "open"]
+    if os.environ.get("PVX_NO_OPEN_FINDINGS"):      # debugging aid: check without excluding any known region
+        fopen = []
 
     if hasattr(H, "prepare"):
         H.prepare(tier)     # e.g. build the compiled kernels from the working tree
